@@ -67,7 +67,11 @@ func (c *RawHTTPResponder) GetHeaders() http.Header {
 
 func (c *RawHTTPResponder) writeResponse() error {
 	// If Content-Length is unknown, we must either use chunked encoding or close the connection.
-	if c.response.ContentLength < 0 {
+	// 1xx, 204 and 304 responses never have a body: there is nothing to frame, and a chunked
+	// terminator after their header block would be read as the start of the next response.
+	status := c.response.StatusCode
+	bodyAllowed := !(status >= 100 && status < 200) && status != http.StatusNoContent && status != http.StatusNotModified
+	if c.response.ContentLength < 0 && bodyAllowed {
 		c.response.TransferEncoding = []string{"chunked"}
 	}
 
